@@ -236,6 +236,15 @@ func fLateGuard(n *N, seen map[*N]bool) {
 var pool = sync.Pool{New: func() any { return &bytes.Buffer{} }}
 
 func sink([]byte) {}
+func fSwallow(xs []string, visit func(string) error) error {
+	for _, x := range xs {
+		if err := visit(x); err != nil {
+			return nil
+		}
+	}
+	return nil
+}
+
 func fAfterPut() {
 	buf := pool.Get().(*bytes.Buffer)
 	dump := buf.Bytes()
@@ -300,6 +309,6 @@ func LintSelfTest() (map[string]bool, error) {
 }
 
 // SelfTestKinds lists the lint kinds that must fire in the self-test.
-var SelfTestKinds = []string{"lateguard", "afterput", "dupbranch", "selfsearch", "twinguard", "lazyinit", "shallow", "var", "memo", "recursion", "slice", "flag", "break", "swap", "guardfield", "retryonce", "guardvar", "rawname", "invariant", "mapstore", "selfcopy", "parity", "maporder"}
+var SelfTestKinds = []string{"lateguard", "afterput", "dupbranch", "selfsearch", "twinguard", "lazyinit", "shallow", "var", "memo", "recursion", "slice", "flag", "break", "swap", "guardfield", "retryonce", "guardvar", "rawname", "invariant", "mapstore", "selfcopy", "parity", "maporder", "swallow"}
 
 func init() { sort.Strings(SelfTestKinds) }
